@@ -565,3 +565,96 @@ func pruneVars(op *Operation) {
 func isNameChar(c byte) bool {
 	return c == '_' || c >= '0' && c <= '9' || c >= 'a' && c <= 'z' || c >= 'A' && c <= 'Z'
 }
+
+// FragDagDoc builds k named fragments on one composite type forming a random DAG of spreads
+// (diamonds, chains, shared leaves) and several operations that each spread a random subset.
+func FragDagDoc(r *core.Rng, s *Schema) *Doc {
+	// a root field of composite (non-union) type without required arguments, having a leaf field
+	var root *FieldDef
+	var leaf *FieldDef
+	for _, f := range s.FieldsOf("Query") {
+		td := s.Get(f.Type.Base())
+		if td == nil || (td.Kind != "OBJECT" && td.Kind != "INTERFACE") {
+			continue
+		}
+		req := false
+		for _, a := range f.Args {
+			if a.Type.NonNull && a.Default == "" {
+				req = true
+			}
+		}
+		if req {
+			continue
+		}
+		for _, lf := range td.Fields {
+			if s.IsLeaf(lf.Type.Base()) && len(lf.Args) == 0 {
+				root, leaf = f, lf
+			}
+		}
+	}
+	if root == nil {
+		return nil
+	}
+	on := root.Type.Base()
+	k := 3 + r.Intn(4)
+	d := &Doc{}
+	names := pickDistinct(r, []string{"Za", "Xb", "Yc", "Wd", "Ve", "Uf", "Tg", "Sh"}, k, map[string]bool{})
+	for i, n := range names {
+		f := &Fragment{Name: n, On: on}
+		f.Sel = append(f.Sel, &Sel{Kind: "field", Alias: fmt.Sprintf("a%d", i), Name: leaf.Name, Parent: on, Type: leaf.Type})
+		for j := 0; j < i; j++ {
+			if r.Chance(0.45) {
+				f.Sel = append(f.Sel, &Sel{Kind: "spread", Name: names[j], Parent: on})
+			}
+		}
+		if r.Chance(0.5) {
+			// reverse so that spreads come first sometimes
+			for a, b := 0, len(f.Sel)-1; a < b; a, b = a+1, b-1 {
+				f.Sel[a], f.Sel[b] = f.Sel[b], f.Sel[a]
+			}
+		}
+		d.Frags = append(d.Frags, f)
+	}
+	nops := 2 + r.Intn(3)
+	used := map[string]bool{}
+	for _, on2 := range pickDistinct(r, opNamePool, nops, map[string]bool{}) {
+		op := &Operation{Kind: "query", Name: on2}
+		fsel := &Sel{Kind: "field", Name: root.Name, Parent: "Query", Type: root.Type}
+		for _, n := range names {
+			if r.Chance(0.35) {
+				fsel.Sub = append(fsel.Sub, &Sel{Kind: "spread", Name: n, Parent: on})
+			}
+		}
+		if len(fsel.Sub) == 0 {
+			fsel.Sub = append(fsel.Sub, &Sel{Kind: "spread", Name: names[len(names)-1], Parent: on})
+		}
+		usesOf(fsel.Sub, used)
+		op.Sel = []*Sel{fsel}
+		d.Ops = append(d.Ops, op)
+	}
+	// drop fragments nobody reaches (an unused fragment is invalid)
+	changed := true
+	for changed {
+		changed = false
+		for _, f := range d.Frags {
+			if used[f.Name] {
+				m := map[string]bool{}
+				usesOf(f.Sel, m)
+				for x := range m {
+					if !used[x] {
+						used[x] = true
+						changed = true
+					}
+				}
+			}
+		}
+	}
+	var kept []*Fragment
+	for _, f := range d.Frags {
+		if used[f.Name] {
+			kept = append(kept, f)
+		}
+	}
+	d.Frags = kept
+	return d
+}
